@@ -34,7 +34,7 @@ REQUIRE = {
     "B_view_checks": 200,
     "B_replies_compared": 100,
     "B_pending_wrap_states": 500,
-    "directed_cases": 20,
+    "directed_cases": 10,
 }
 RULE = (
     "part A: op histories (feed chunk | resize to any size>=1x1 | scroll view | focus) over byte streams from a grammar of "
@@ -52,7 +52,10 @@ ASSUMES = [
     "attributes are compared only for cells the model says were printed (blank printed cells: bg, underline, reverse only), with "
     "bold+colour<8 == bright colour normalisation; attributes of erased cells are not compared",
     "part B uses width-1 characters only (TermCanvas has no double-width cell notion; not part of the stated subset)",
-    "a line 'scrolled off the top' is one leaving row 0 of a region that starts at row 0 (xterm rule)",
+    "scrollback: every line leaving the top row of the active scrolling region is kept, in order (TermCanvas also keeps lines "
+    "of regions that do not start at row 0; xterm would not; the statement does not forbid it, so it is not reported)",
+    "part B uses the documented spelling urwid.set_encoding('utf8'); with 'utf-8' TermCanvas does not assemble UTF-8 at all "
+    "(documented in the Terminal docstring), part A still runs under 'utf-8'",
     "counts above 1e5 are not generated (ICH/DCH/IL/DL loop per count: denial of service, not a statement violation)",
     "cursor position after resize is only required to be inside the grid (the statement says nothing about preserving it)",
 ]
@@ -63,11 +66,43 @@ URWID_QUIRKS = (
     "pending-wrap-survives-cursor-motion",
     "ed1-excludes-cursor-cell",
     "width1-wrap-loses-pending",
-    "scrollback-saves-region-lines",
+    "autowrap-below-region-scrolls-region",
+    "il-removes-line-above-bottom-margin",
 )
+# one canonical probe per quirk: the quirk is "live" in the tree under test iff the faithful model disagrees with urwid on
+# the probe and the model with just that quirk agrees.  Quirks that are not live (e.g. fixed upstream) are dropped from
+# the all-quirks model so that it keeps tracking urwid.
+QUIRK_PROBES = {
+    "pending-wrap-survives-cursor-motion": (10, 3, [["print", "0123456789"], ["CUP", 1, 10], ["print", "X"]]),
+    "ed1-excludes-cursor-cell": (10, 3, [["print", "abcdefghij"], ["CUP", 1, 4], ["ED", 1]]),
+    "width1-wrap-loses-pending": (1, 3, [["print", "abc"]]),
+    "autowrap-below-region-scrolls-region": (6, 5, [["STBM", 1, 3], ["CUP", 4, 5], ["print", "Y z"]]),
+    "il-removes-line-above-bottom-margin": (4, 3, [["print", "a"], ["CUP", 2, 1], ["print", "b"], ["CUP", 3, 1], ["print", "c"], ["CUP", 1, 1], ["IL", 1]]),
+}
+_active = None
+
+
+def active_quirks(ctx=None):
+    global _active
+    if _active is None:
+        live = []
+        for q in URWID_QUIRKS:
+            w, h, ops = QUIRK_PROBES[q]
+            case = {"part": "B", "w": w, "h": h, "focus": False, "enc": "utf8", "chunk": 0, "ops": ops}
+            if exec_b(case, final_view=False) is not None and exec_b(case, {q}, final_view=False) is None:
+                live.append(q)
+        _active = tuple(live)
+    if ctx is not None:
+        ctx.extra["quirks_live_in_tree_under_test"] = list(_active)
+    return _active
+
+
 # disputed corners resolved the xterm way on BOTH sides of the classifier (never decisive: the generator re-addresses
 # the cursor after IL/DL, but the comparison right after the op looks at the cursor column)
-BASE_QUIRKS = frozenset({"il-dl-keep-column"})
+# "scrollback-saves-region-lines": TermCanvas also keeps lines leaving the top of a region that does not start at row 0
+# (xterm drops those).  The statement only requires that lines scrolled off the top are kept in order, so the oracle
+# follows TermCanvas here instead of reporting it (oracle correction, see final report).
+BASE_QUIRKS = frozenset({"il-dl-keep-column", "scrollback-saves-region-lines"})
 
 _vterm = None
 _util = None
@@ -193,9 +228,6 @@ def invariants(t, stub, nreplies_before, ctx=None):
             out.append((k, f"reply {r!r} size={w}x{h}"))
     # the view
     k = t.scrolling_up
-    sb = len(t.scrollback_buffer)
-    if not (0 <= k <= sb):
-        out.append(("scrolling_up-out-of-range", f"scrolling_up={k} scrollback={sb}"))
     if k and ctx is not None:
         ctx.count("A_scrolled_view_checks")
     try:
@@ -204,11 +236,13 @@ def invariants(t, stub, nreplies_before, ctx=None):
         out.append((f"content-raise:{type(ex).__name__}|{'scrolled-back' if k else 'not-scrolled'}", repr(ex)))
         return out
     if k == 0:
-        if len(view) != h or any(a is not b for a, b in zip(view, t.term)):
+        if len(view) != h or any(a != b for a, b in zip(view, t.term)):
             out.append(("content!=term-when-not-scrolled", f"{len(view)} rows"))
     else:
         exp = (list(t.scrollback_buffer) + list(t.term))[-(h + k) : -k]
-        if len(view) != len(exp) or any(a is not b for a, b in zip(view, exp)):
+        # cells are compared on the part of each line that fits the current width (lines keep their old width in the
+        # scrollback; how they are padded/cut is not specified, the shape is judged by check_grid below)
+        if len(view) != len(exp) or any(a[: min(len(b), w)] != b[: min(len(b), w)] for a, b in zip(view, exp)):
             out.append(("scrolled-view!=(scrollback+term)[-(h+k):-k]", f"k={k} h={h} got {len(view)} rows"))
         g = check_grid(view, w, h, "scrolled-view")
         if g:
@@ -233,8 +267,9 @@ def apply_a_op(t, stub, op):
         raise AssertionError(op)
 
 
-def run_a(ctx, wit, collect=None):
-    """execute one part-A history; report violations (or collect their sigs when shrinking). returns set of sigs"""
+def run_a(ctx, wit, collect=None, stop_on=None):
+    """execute one part-A history; every op is followed by the invariant oracle.  The history is continued after a
+    violation (each signature is recorded once, with the index of the op where it first appeared).  -> {sig: (msg, i)}"""
     sigs = {}
     t, stub = new_term(wit["w"], wit["h"], wit["focus"], wit["enc"])
     for i, op in enumerate(wit["ops"]):
@@ -244,16 +279,20 @@ def run_a(ctx, wit, collect=None):
         except Exception as ex:  # noqa: BLE001
             sig = f"C15|A|{op[0]}|raise:{type(ex).__name__}|at={innermost_vterm_frame(ex)}"
             sigs.setdefault(sig, (f"{type(ex).__name__}: {ex} in {innermost_vterm_frame(ex)} at op {i}", i))
-            break
+            if stop_on is not None and stop_on in sigs:
+                break
+            if len(t.term) != t.height:  # the exception left the object unusable for further ops
+                break
+            continue
         if collect is None:
             ctx.count("A_ops_checked")
             if op[0] == "resize":
                 ctx.count("A_resizes")
         bad = invariants(t, stub, nrep, ctx if collect is None else None)
         for kind, msg in bad:
-            sig = f"C15|A|invariant|{kind}|after={op[0]}"
+            sig = f"C15|A|invariant|{kind}"
             sigs.setdefault(sig, (f"{msg} after op {i} {op[0]}", i))
-        if bad:
+        if stop_on is not None and stop_on in sigs:
             break
     return sigs
 
@@ -268,7 +307,7 @@ def shrink_a(wit, sig, budget=300):
             return False
         w2 = dict(wit, ops=ops)
         try:
-            return sig in run_a(None, w2, collect=True)
+            return sig in run_a(None, w2, collect=True, stop_on=sig)
         except Exception:  # noqa: BLE001
             return False
 
@@ -308,10 +347,10 @@ def shrink_a(wit, sig, budget=300):
 def report_a(ctx, wit, sigs, shrunk_seen):
     for sig, (msg, _i) in sigs.items():
         w2 = wit
-        if shrunk_seen.get(sig, 0) < 3 and not ctx.replaying:
+        if shrunk_seen.get(sig, 0) < 2 and not ctx.replaying:
             shrunk_seen[sig] = shrunk_seen.get(sig, 0) + 1
             w2 = shrink_a(wit, sig)
-            s2 = run_a(None, w2, collect=True)
+            s2 = run_a(None, w2, collect=True, stop_on=sig)
             if sig in s2:
                 msg = s2[sig][0]
             else:
@@ -467,7 +506,9 @@ NARROW_TEXT = {
     "iso8859-1": "abcXYZ019 .,;-_éßñÀÿ£",
     "koi8-r": "abcXYZ019 .,;-_жЩяЮ",
 }
-ENC_B = ["utf8", "utf8", "utf-8", "ascii", "iso8859-1", "koi8-r"]
+# "utf-8" (with the hyphen) is not used in part B: TermCanvas assembles UTF-8 only when the global encoding is spelled
+# "utf8", and the Terminal docstring documents that requirement (part A still feeds streams under "utf-8").
+ENC_B = ["utf8", "utf8", "utf8", "ascii", "iso8859-1", "koi8-r"]
 SGR_B = [0, 0, 1, 4, 5, 7, 24, 25, 27, 30, 31, 32, 33, 34, 35, 36, 37, 39, 40, 41, 42, 43, 44, 45, 46, 47, 49, 90, 91, 94, 97, 100, 101, 104, 107]
 
 
@@ -509,10 +550,13 @@ def render_b(op, enc):
 
 
 class GenState:
-    __slots__ = ("need_cup",)
+    """what the generator must remember to stay away from disputed corners (model independent)"""
+
+    __slots__ = ("need_cup", "pending")
 
     def __init__(self):
-        self.need_cup = False
+        self.need_cup = False  # after IL/DL/DECSTBM: re-address the cursor first
+        self.pending = False  # the previous op was a print that ended in the last column
 
 
 def admissible(op, vt, st):
@@ -521,7 +565,7 @@ def admissible(op, vt, st):
         return True
     if st.need_cup and k not in ("CUP", "HVP"):
         return False
-    if vt.pending_wrap and k not in ("print", "CR", "CUP", "HVP"):
+    if st.pending and k not in ("print", "CR", "CUP", "HVP"):
         return False
     if k in ("CUU", "CUD"):
         return vt.scroll_region == (0, vt.rows - 1)
@@ -534,8 +578,12 @@ def admissible(op, vt, st):
     return True
 
 
-def after_op(op, st):
+def after_op(op, st, vt):
     k = op[0]
+    if k == "print":
+        st.pending = vt.pending_wrap
+    elif k not in ("SGR", "DSR"):
+        st.pending = False
     if k in ("IL", "DL", "STBM"):
         st.need_cup = True
     elif k in ("CUP", "HVP"):
@@ -783,7 +831,7 @@ def exec_b(case, quirks=(), enc_override=None, check_adm=True, final_view=True, 
         except Exception as ex:  # noqa: BLE001
             return (i, f"raise:{type(ex).__name__}", f"{ex!r} in {innermost_vterm_frame(ex)}")
         vt.feed(data)
-        after_op(op, st)
+        after_op(op, st, vt)
         hard, attr = compare(t, vt, enc, want_attr=(mode == "attr"))
         if mode == "attr":
             vt.take_responses()
@@ -856,6 +904,9 @@ def shrink_b(case, pred, budget=400):
                         break
                 else:
                     break
+            plain = "".join(c if ord(c) < 128 else "x" for c in s)
+            if plain != s and ok(ops[:idx] + [["print", plain]] + ops[idx + 1 :]):
+                s = plain
             ops[idx] = ["print", s]
         elif op[0] == "SGR" and len(op[1]) > 1:
             ps = list(op[1])
@@ -895,17 +946,24 @@ def fallback_sig(case, kind):
     d = direct_sig(kind, "")
     if d and kind.startswith("view-raise:"):
         return d
-    shapes = []
-    for op in case["ops"]:
-        s = op_shape(op)
-        if not shapes or shapes[-1] != s:
-            shapes.append(s)
-    if len(shapes) > 7:
-        shapes = shapes[:3] + ["..."] + shapes[-3:]
+    # mechanism-level abstraction of the shrunk witness: the op after which the mismatch shows (with the class of its
+    # count argument), the kinds of the other state-changing ops still needed (pure cursor motion is left out), and
+    # the degenerate-size flags.  No literal values, sizes or texts.
+    ops = case["ops"]
+    last = ops[-1] if ops else ["?"]
+
+    def argclass(op):
+        if op[0] in ("print", "SGR", "CR", "LF", "BS", "IND", "RI", "NEL", "ED", "EL", "DSR"):
+            return ""
+        vals = [v for v in op[1:] if not isinstance(v, str)]
+        return "(" + ",".join("_" if v is None else ("0" if v == 0 else ("1" if v == 1 else "n")) for v in vals) + ")"
+
+    motion = {"CUP", "HVP", "CUF", "CUB", "CUU", "CUD", "CR", "BS"}
+    others = sorted({op_shape(op) if op[0] in ("ED", "EL") else op[0] for op in ops[:-1] if op[0] not in motion})
     w1 = "|width=1" if case["w"] == 1 else ""
     h1 = "|height=1" if case["h"] == 1 else ""
-    encs = "" if case["enc"] == "utf8" else f"|enc={case['enc']}"
-    return f"C15|B|diff|{kind}|ops={'>'.join(shapes)}{w1}{h1}{encs}"
+    encs = "" if case["enc"] in ("utf8", "ascii") or all(ord(c) < 128 for op in ops if op[0] == "print" for c in op[1]) else f"|enc={case['enc']}"
+    return f"C15|B|diff|{kind}|after={op_shape(last)}{argclass(last)}|with={'+'.join(others) or 'nothing'}{w1}{h1}{encs}"
 
 
 def classify_b(case, ctx):
@@ -916,11 +974,12 @@ def classify_b(case, ctx):
     kind = base[1]
 
     def explained_by(c, quirks, enc_override=None):
-        r = exec_b(c, quirks, enc_override=enc_override)
+        # the scrolled-back view is judged separately (its own signature), it must not mask an explanation
+        r = exec_b(c, quirks, enc_override=enc_override, final_view=kind.startswith("view"))
         return r is None
 
     def single_quirks(c):
-        return [q for q in URWID_QUIRKS if explained_by(c, {q})]
+        return [q for q in active_quirks() if explained_by(c, {q})]
 
     d = direct_sig(kind, base[2])
     if d:
@@ -950,13 +1009,14 @@ def classify_b(case, ctx):
         return (f"C15|B|quirk={name}", f"{r[1]}: {r[2]} (agrees with the model under quirk {name!r})", small)
     if small["enc"] == "utf-8" and explained_by(small, (), enc_override="utf8"):
         return ("C15|B|utf8-assembly-disabled|encoding-name=utf-8", f"{r[1]}: {r[2]}", small)
-    if explained_by(small, set(URWID_QUIRKS)):
-        need = list(URWID_QUIRKS)
+    if explained_by(small, set(active_quirks())):
+        need = list(active_quirks())
         for q in list(need):
             trial = [x for x in need if x != q]
             if explained_by(small, set(trial)):
                 need = trial
-        return (f"C15|B|quirk={'+'.join(need)}", f"{r[1]}: {r[2]} (needs quirks {need} together)", small)
+        # several known deviations are needed together: one report per mechanism
+        return [(f"C15|B|quirk={q}", f"{r[1]}: {r[2]} (agrees with the model only with quirks {need} together)", small) for q in need]
     return (fallback_sig(small, r[1]), f"{r[1]}: {r[2]}", small)
 
 
@@ -964,6 +1024,7 @@ def classify_b(case, ctx):
 
 SGR_TAINT = "C15|B|sgr|palette-colour-corrupted-while-24bit-colour-in-effect"
 SGR_BRIGHT = "C15|B|sgr|aixterm-bright-colour-dimmed-by-later-sgr"
+SGR_ZERO = "C15|B|sgr|sequence-ending-in-colour-argument-0-resets-carried-state"
 
 
 def exec_s(wit):
@@ -1039,8 +1100,16 @@ def shrink_s(wit, field):
         c = item_class(v)
         return {"fg8": 31, "bg8": 41, "fgBright": 91, "bgBright": 101, "fg256": [38, 5, 100], "bg256": [48, 5, 100], "fgRGB": [38, 2, 1, 2, 3], "bgRGB": [48, 2, 1, 2, 3]}.get(c, v)
 
+    def canon_a(v):  # 24-bit -> 256-colour index
+        return [v[0], 5, 100] if isinstance(v, list) and v[1] == 2 else v
+
+    def canon_b(v):  # colour argument 0 -> non-zero
+        if isinstance(v, list) and v[-1] == 0:
+            return [*v[:-1], 16 if v[1] == 5 else 1]
+        return v
+
     cur = dict(wit, ops=ops)
-    for fn in (canon1, canon2):
+    for fn in (canon_a, canon_b, canon1, canon2):
         for idx in range(len(cur["ops"])):
             for j in range(len(cur["ops"][idx][1])):
                 cand = dict(cur, ops=[["SGR", list(o[1])] for o in cur["ops"]])
@@ -1072,6 +1141,19 @@ def classify_s(wit):
             return [48, 5, v - 100 + 8]
         return v
 
+    def no_trailing_zero(w2):
+        ops = []
+        for op in w2["ops"]:
+            items = [list(v) if isinstance(v, list) else v for v in op[1]]
+            if items and isinstance(items[-1], list) and items[-1][-1] == 0:
+                items[-1][-1] = 16 if items[-1][1] == 5 else 1  # 16 is black too; blue 1 instead of 0
+            ops.append(["SGR", items])
+        return dict(w2, ops=ops)
+
+    if any(isinstance(op[1][-1], list) and op[1][-1][-1] == 0 for op in small["ops"] if op[1]):
+        alt = no_trailing_zero(small)
+        if exec_s(alt) is None:
+            return (SGR_ZERO, f"{r[1]}: {r[2]} (disappears when the final 0 colour argument is replaced by a non-zero one)", small)
     has_rgb = any(c.endswith("RGB") for c in flat)
     has_bright = any(c.endswith("Bright") for c in flat)
     if has_rgb and exec_s(subst_items(small, no_rgb)) is None:
@@ -1094,17 +1176,21 @@ def classify_attr(pre, am, shrunk_seen):
     # not reproducible from the SGR history alone: grid mechanics are involved
     field = am[0]
 
+    allq = set(active_quirks())
+
     def pred(c):
-        r = exec_b(c, mode="attr")
-        return r is not None and r[1] == field
+        r = exec_b(c, allq, mode="attr")
+        if r is None or r[1] != field:
+            return False
+        return not (c["enc"] == "utf-8" and exec_b(c, allq, enc_override="utf8", mode="attr") is None)
 
     if not pred(pre):
-        return None
+        return None  # a consequence of a known grid deviation, not an attribute defect of its own
     if shrunk_seen.get("attr", 0) >= 8:
         return None
     shrunk_seen["attr"] = shrunk_seen.get("attr", 0) + 1
     small = shrink_b(pre, pred)
-    r = exec_b(small, mode="attr")
+    r = exec_b(small, allq, mode="attr")
     return (fallback_sig(small, r[1]), f"{r[1]}: {r[2]}", dict(small, mode="attr"))
 
 
@@ -1146,7 +1232,7 @@ def run_b_generated(ctx, rng, shrunk_seen):
     case = {"part": "B", "w": w, "h": h, "focus": focus, "enc": enc, "chunk": chunk, "ops": []}
     t, stub = new_term(w, h, focus, enc)
     vf = model_for(case, BASE_QUIRKS)
-    vq = model_for(case, BASE_QUIRKS | frozenset(URWID_QUIRKS))
+    vq = model_for(case, BASE_QUIRKS | frozenset(active_quirks()))
     alive_f = alive_q = True
     attr_first = None
     st = GenState()
@@ -1164,7 +1250,6 @@ def run_b_generated(ctx, rng, shrunk_seen):
             sig = f"C15|B|raise:{type(ex).__name__}|at={innermost_vterm_frame(ex)}"
             ctx.violation(sig, f"{ex!r}", dict(case))
             return
-        after_op(op, st)
         ctx.count("B_ops_compared")
         ctx.count(f"B_op:{op[0]}")
         ur = [s.encode("latin-1", "replace") for s in stub.out[nrep:]]
@@ -1186,6 +1271,7 @@ def run_b_generated(ctx, rng, shrunk_seen):
                     first = len(case["ops"])
                 else:
                     alive_q = False
+        after_op(op, st, lead)
         if lead.pending_wrap:
             ctx.count("B_pending_wrap_states")
         if not alive_f and not alive_q:
@@ -1222,19 +1308,19 @@ def run_b_generated(ctx, rng, shrunk_seen):
         ctx.count("B_faithful_mismatches")
         pre = dict(case, ops=case["ops"][:first])
         res = classify_b(pre, ctx)
-        if res:
-            ctx.violation(*res)
-            ctx.count("B_classified:" + ("quirk" if "|quirk=" in res[0] or "utf8-assembly" in res[0] else "other"))
+        for one in res if isinstance(res, list) else ([res] if res else []):
+            ctx.violation(*one)
+            ctx.count("B_classified:" + ("quirk" if "|quirk=" in one[0] or "utf8-assembly" in one[0] else "other"))
     if not alive_f and not alive_q:
         # unexplained even with every known quirk enabled: shrink against the all-quirks model
         ctx.count("B_unexplained_under_all_quirks")
-        allq = set(URWID_QUIRKS)
+        allq = set(active_quirks())
 
         def pred(c):
             r = exec_b(c, allq)
             if r is None or r[1] == "inadmissible":
                 return False
-            return not (c["enc"] == "utf-8" and exec_b(c, allq, enc_override="utf8") is None)
+            return not (c["enc"] == "utf-8" and exec_b(c, allq, enc_override="utf8", final_view=False) is None)
 
         if pred(case):
             key = "allq"
@@ -1242,7 +1328,8 @@ def run_b_generated(ctx, rng, shrunk_seen):
                 ctx.count("B_unexplained_not_shrunk_not_reported")
                 return
             shrunk_seen[key] = shrunk_seen.get(key, 0) + 1
-            small = shrink_b(case, pred)
+            r0 = exec_b(case, allq)
+            small = shrink_b(dict(case, ops=case["ops"][: r0[0] + 1]), pred, budget=700)
             r = exec_b(small, allq)
             if r is not None and r[1] != "inadmissible":
                 if r[1].startswith("raise:"):
@@ -1258,7 +1345,7 @@ def replay_b(ctx, wit):
         return
     if wit.get("mode") == "attr":
         case = {k: v for k, v in wit.items() if k != "mode"}
-        r = exec_b(case, mode="attr")
+        r = exec_b(case, set(active_quirks()), mode="attr")
         ctx.case(("B-replay", case["ops"]))
         if r is not None:
             ctx.violation(fallback_sig(case, r[1]), f"{r[1]}: {r[2]}", wit)
@@ -1266,7 +1353,7 @@ def replay_b(ctx, wit):
     case = {k: v for k, v in wit.items() if k != "quirks"}
     case["ops"] = [list(o) for o in case["ops"]]
     if wit.get("quirks") == "all":
-        r = exec_b(case, set(URWID_QUIRKS))
+        r = exec_b(case, set(active_quirks()))
         ctx.case(("B-replay", case["ops"]))
         if r is not None and r[1] != "inadmissible":
             if r[1].startswith("raise:"):
@@ -1281,8 +1368,8 @@ def replay_b(ctx, wit):
         return
     pre = dict(case, ops=case["ops"][: r[0] + 1]) if r[0] >= 0 else case
     res = classify_b(pre, ctx)
-    if res:
-        ctx.violation(res[0], res[1], wit)
+    for one in res if isinstance(res, list) else ([res] if res else []):
+        ctx.violation(one[0], one[1], wit)
 
 
 # =============================================================================== directed cases (from the design's probes)
@@ -1302,7 +1389,6 @@ DIRECTED = [
     {"part": "B", "w": 10, "h": 3, "focus": False, "enc": "utf8", "chunk": 0, "ops": [["print", "0123456789"], ["CUP", 1, 10], ["print", "X"]]},
     {"part": "B", "w": 10, "h": 3, "focus": False, "enc": "utf8", "chunk": 0, "ops": [["print", "abcdefghij"], ["CUP", 1, 4], ["ED", 1]]},
     {"part": "B", "w": 1, "h": 3, "focus": False, "enc": "utf8", "chunk": 0, "ops": [["print", "abc"]]},
-    {"part": "B", "w": 6, "h": 2, "focus": False, "enc": "utf-8", "chunk": 0, "ops": [["print", "éx"]]},
     {"part": "B", "w": 5, "h": 4, "focus": False, "enc": "utf8", "chunk": 0, "ops": [["print", "a"], ["STBM", 2, 3], ["CUP", 3, 1], ["print", "b"], ["LF"]]},
 ]
 
@@ -1332,6 +1418,7 @@ def run(ctx):
     )  # fmt: skip
     shrunk_seen = {}
     try:
+        active_quirks(ctx)
         for i, wit in enumerate(DIRECTED):
             if ctx.mine(i):
                 run_directed(ctx, wit, shrunk_seen)
@@ -1340,7 +1427,7 @@ def run(ctx):
         n = 0
         while ctx.more(1.0):
             n += 1
-            if n % 2:
+            if n % 4:
                 wit = gen_a_case(rng, ctx.quick)
                 sigs = run_a(ctx, wit)
                 ctx.case(("A", wit["w"], wit["h"], wit["enc"], wit["focus"], wit["ops"]), nontrivial=bool(wit["ops"]))
